@@ -147,6 +147,11 @@ def case_lowlevel(p):
                 coro, method, body, ctype = c.put_json(target, arg), "PUT", None, "application/hap+json"
             elif api == "post_json":
                 coro, method, body, ctype = c.post_json(target, arg), "POST", None, "application/hap+json"
+            elif api == "request":
+                # the general entry point, with the method as a caller may spell it and headers of the caller's own: the request line is the
+                # canonical (upper-case) one all the same
+                mspell, body, hdrs = arg
+                coro, method, ctype = c.request(method=mspell, target=target, headers=[tuple(h) for h in hdrs] if hdrs else None, body=body), mspell.upper(), dict(hdrs or []).get("Content-Type")
             elif api == "post_tlv":
                 coro, method, body, ctype = c.post_tlv(target, [(t, bytearray(v)) for t, v in arg]), "POST", tlv8.encode(arg), "application/pairing+tlv8"
             try:
@@ -554,6 +559,8 @@ def run(ctx):
                 calls.append({"api": "post_json", "target": t, "arg": o})
         for items in ([(6, b"\x01"), (0, b"\x05")], [(6, b"\x01"), (3, bytes(range(256)) * 2)], [(1, b"\r\n")]):
             calls.append({"api": "post_tlv", "target": "/pairings", "arg": items})
+        for mspell in ("GET", "get", "Get", "PUT", "put", "Put", "POST", "post", "pOsT"):
+            calls.append({"api": "request", "target": "/accessories" if mspell.upper() == "GET" else "/identify", "arg": [mspell, None, None]})
         # requests longer than one (1024 byte) and two encrypted frames: still one transport call
         for n in (1000, 1024, 1500, 2048, 3000, 5000):
             calls.append({"api": "put", "target": "/characteristics", "arg": b"x" * n})
